@@ -228,7 +228,8 @@ def check_case(case):
         sig = 'wrong cell or row content under %r' % (policy,)
     observed = {'delivered': delivered, 'raised': raised, 'at': stage}
     expected = {'delivered': exp['rows'], 'raised': exp['raises'], 'optional_tail': exp['optional']}
-    msg = '%s, policy %r (%s), errorvalue %r: %s' % (form, policy, mode, ev, sig)
+    msg = '%s, policy %r (%s), errorvalue %s: %s' % (form, policy, mode,
+                                                    '<omitted>' if ev == ref.OMIT else repr(ev), sig)
     return (sig, expected, observed, msg), exp, delivered, raised
 
 
